@@ -1,7 +1,20 @@
 (* C20 — Linear layer computes the clipped affine function.  Property
-   theorems only; proofs live in Proofs/LinearEval.v. *)
+   theorems only; proofs live in Proofs/LinearEval.v, Proofs/LinearComposed.v,
+   Proofs/SqrtRobust.v.
+
+   The square root of the order-2 normalisation (rt : Q -> Q): every
+   C20_projected_* theorem below is quantified over ALL functions rt with NO
+   hypothesis -- not exactness, not even positivity (the guard `norm < 1e-8 ->
+   divide by 1` of the constraint makes the divisor positive whatever rt
+   returns) -- so none of them is idealised; C20_projected_executed_root spells
+   out the instance rt := qsqrt (the executed truncated Newton root).  The
+   weighted-average statements are about order 1 (no root).  The L2 analogue
+   (|output - bias| <= ||clipped input||_2 up to the root's relative error) is
+   C20_projected_l2_output_approximate_root (root with relative error e) and
+   C20_projected_l2_output_executed_root (executed root). *)
 From TFL Require Import Model.LinearEval Proofs.LinearEval.
 From TFL Require Import Model.LinearLayer Proofs.PartialOrder Proofs.LinearProject Proofs.LinearComposed.
+From TFL Require Import Proofs.SqrtRobust.
 Open Scope Q_scope.
 
 (* Output of unit u = bias_u + sum_i K[i,u] * clip_i(x_i). *)
@@ -210,3 +223,56 @@ Theorem C20_projected_layer_monotone : forall rt c units W bias inp inp' out out
   nth u out 0 <= nth u out' 0.
 Proof. exact projected_layer_monotone. Qed.
 Print Assumptions C20_projected_layer_monotone.
+
+(* ---------------- order-2 normalisation and the square root ---------------- *)
+(* the theorems above at the executed root (rt := qsqrt, what the
+   correspondence check runs), any normalisation order: monotone, monotonic
+   dominance effect; they need nothing about the root *)
+Theorem C20_projected_executed_root : forall c n w r b,
+  lin_valid c n -> length w = n -> lin_project_col qsqrt c w = Some r ->
+  (forall x y, length x = n -> length y = n -> dir_le c x y ->
+     lin_unit r b (layer_bounds c n) x <= lin_unit r b (layer_bounds c n) y) /\
+  (forall x dom weak d, length x = n -> In (dom, weak) (lc_mdom c) -> 0 <= d ->
+     unclipped (nth dom (layer_bounds c n) nob) (nth dom x 0) ->
+     unclipped (nth dom (layer_bounds c n) nob) (nth dom x 0 + d) ->
+     lin_unit r b (layer_bounds c n) (set_nth weak (nth weak x 0 + d) x) - lin_unit r b (layer_bounds c n) x <=
+     lin_unit r b (layer_bounds c n) (set_nth dom (nth dom x 0 + d) x) - lin_unit r b (layer_bounds c n) x).
+Proof. intros c n w r b V L E. split.
+  - intros x y Lx Ly D. exact (projected_monotone qsqrt c n w r b x y V L E Lx Ly D).
+  - intros x dom weak d Lx Hin Hd U1 U2. exact (projected_mdom_effect qsqrt c n w r b x dom weak d V L E Lx Hin Hd U1 U2). Qed.
+Print Assumptions C20_projected_executed_root.
+
+(* Cauchy-Schwarz, any kernel: (output - bias)^2 <= ||kernel||_2^2 * ||clipped input||_2^2 *)
+Theorem C20_l2_output_bound : forall k b bs x,
+  (lin_unit k b bs x - b) * (lin_unit k b bs x - b) <= sumsq k * sumsq (clipped bs x).
+Proof. exact lin_unit_cs. Qed.
+Print Assumptions C20_l2_output_bound.
+
+(* order 2, root with relative error e in the square, norm guard passed:
+   (1 - e) (output - bias)^2 <= ||clipped input||_2^2 *)
+Theorem C20_projected_l2_output_approximate_root : forall rt c n w r b x,
+  lin_valid c n -> length w = n -> lc_norm c = 2%nat -> lin_project_col rt c w = Some r ->
+  exists w3, lin_project_col rt (with_norm c 0) w = Some w3 /\
+    let S := sumsq w3 in let out := lin_unit r b (layer_bounds c n) x in
+    forall e, e < 1 -> (1 - e) * S <= rt S * rt S -> rt S * rt S <= (1 + e) * S -> norm_eps <= rt S ->
+    (1 - e) * ((out - b) * (out - b)) <= sumsq (clipped (layer_bounds c n) x).
+Proof. exact projected_l2_output_approx. Qed.
+Print Assumptions C20_projected_l2_output_approximate_root.
+
+(* the executed root, no hypothesis on it left *)
+Theorem C20_projected_l2_output_executed_root : forall c n w r b x,
+  lin_valid c n -> length w = n -> lc_norm c = 2%nat -> lin_project_col qsqrt c w = Some r ->
+  exists w3, lin_project_col qsqrt (with_norm c 0) w = Some w3 /\
+    let out := lin_unit r b (layer_bounds c n) x in
+    (norm_eps <= qsqrt (sumsq w3) ->
+     (out - b) * (out - b) <= (1 + (1 # 2 ^ 51)) * sumsq (clipped (layer_bounds c n) x)).
+Proof. exact projected_l2_output_executed. Qed.
+Print Assumptions C20_projected_l2_output_executed_root.
+
+(* satisfiable: column (1, 1) (sum of squares 2, not a square), input (3, 4), bias 5 *)
+Example C20_projected_l2_example : exists r,
+  lin_project_col qsqrt rt2_cfg [1; 1] = Some r /\ norm_eps <= qsqrt (sumsq [1; 1]) /\
+  let out := lin_unit r 5 (layer_bounds rt2_cfg 2) [3; 4] in
+  sumsq (clipped (layer_bounds rt2_cfg 2) [3; 4]) == 25 /\
+  (out - 5) * (out - 5) <= (1 + (1 # 2 ^ 51)) * 25.
+Proof. exact projected_l2_applies. Qed.
